@@ -151,12 +151,20 @@ let run_avl (c : case) =
       | ("ins" | "rem" | "get" | "gmut" | "gmut0" | "has") :: k :: _ -> Some (z_of_string k)
       | _ -> None) c.ops) in
   pr "case %s\n" c.id;
+  (* the handle discipline of the harness (Avl/Session.v): in persistent mode a mutable view stays
+     open until the buffer is extended or a view is opened anew; in the other modes every operation
+     starts without a handle; keep=1: the handle that ran initialize stays in use *)
+  let persistent = (match kv c.header "mode" with Some m -> m = "persistent" | None -> true) in
+  let keep = (kv c.header "keep" = Some "1") && kv c.header "raw" = None in
+  let live = ref (keep && persistent) and slive = ref (keep && persistent) in
   let s = ref s0 and sp = ref sp0 in
   (try
      List.iteri (fun i t ->
          let spec_res o = match !sp with
            | None -> ""
-           | Some x -> let (x', r) = spec_step x o in sp := Some x'; " s=" ^ str_out_spec r in
+           | Some x ->
+             let (x', r) = spec_step_sess { a_st = x; a_live = !slive } o in
+             sp := Some x'.a_st; slive := x'.a_live && persistent; " s=" ^ str_out_spec r in
          match t with
          | ["fill"; k0] ->
            let before = avl_abs !s uni in
@@ -183,13 +191,20 @@ let run_avl (c : case) =
                   | Some x -> let x = s_claim x in
                     Printf.sprintf " s=#%d:T" (int_of_n x.scap - List.length x.sents) in
                 pr "%d r=#%d:%s d=%s abs=%s%s\n" i count (tf okk) (fnv (encode wb lay !s)) (avl_abs !s uni) spec)
+         | ["dbg"] ->
+           (* Debug formatting of the header: not modelled, must not panic and changes nothing *)
+           let bytes = encode wb lay !s in
+           pr "%d r=U d=%s abs=%s" i (fnv bytes) (avl_abs !s uni);
+           if !full then pr " b=%s" (hex_of_bytes bytes);
+           pr "\n"
          | _ ->
            match parse_avl_op t with
            | None -> failwith ("bad avl op " ^ String.concat " " t)
            | Some o ->
-             match step_c nbits !s o with
-             | Ok (((s', r), log)) ->
-               s := s';
+             match step_sess nbits { c_st = !s; c_live = !live } o with
+             | Ok (((x', r), log)) ->
+               let s' = x'.c_st in
+               s := s'; live := x'.c_live && persistent;
                let bytes = encode wb lay s' in
                let is_ext = (match o with OExt _ -> true | _ -> false) in
                pr "%d r=%s d=%s" i (str_out r) (fnv bytes);
@@ -426,6 +441,16 @@ let run_pstr (c : case) =
             | Some x -> let x' = copy_from_str pn x (bytes_of_hex hx) in
               h := Some x'; buf := x'.pbuf; line "U"
             | None -> line "-")
+         | ["copysl"; hx] ->
+           (match !h with
+            | Some x -> let x' = copy_from_slice pn x (bytes_of_hex hx) in
+              h := Some x'; buf := x'.pbuf; line "U"
+            | None -> line "-")
+         | ["copysl"] ->
+           (match !h with
+            | Some x -> let x' = copy_from_slice pn x [] in
+              h := Some x'; buf := x'.pbuf; line "U"
+            | None -> line "-")
          | ["asstr"] ->
            (match !h with
             | Some x -> let pl = payload pn x in
@@ -592,6 +617,11 @@ let hash_doc_str vt hf (bytes : n list) : string =
       (tf swf) (tf d.hd_wf) (zlist_str members)
 
 let arr_doc_str pnat ty (bytes : n list) : string =
+  (* a count that exceeds the number of bytes cannot be a count of cells in this buffer *)
+  let p = int_of_nat pnat in
+  let rec le_int k l = if k = 0 then 0 else match l with [] -> 0 | b :: tl -> int_of_n b + 256 * le_int (k - 1) tl in
+  let cnt0 = if p <= 7 then le_int p bytes else (let hi = le_int 4 (List.filteri (fun i _ -> i >= 4 && i < 8) bytes) in if hi > 0 then max_int else le_int 4 bytes) in
+  if cnt0 > List.length bytes then Printf.sprintf "doc=%d wf=F cont=-" cnt0 else
   match adecode_doc pnat ty bytes with
   | None -> "doc=FAIL"
   | Some ((cnt, mem), wf) -> Printf.sprintf "doc=%s wf=%s cont=%s" (string_of_n cnt) (tf wf) (cells_str mem)
@@ -719,7 +749,9 @@ let () =
      while true do
        let line = input_line ic in
        if !mode = "decode" then begin
-         decode_line line;
+         (* bytes that are not a collection at all (e.g. a count far beyond the buffer) must not take the
+            reader down: such a line is reported as unreadable *)
+         (try decode_line line with Stack_overflow | Failure _ | Not_found | Invalid_argument _ | Out_of_memory -> pr "doc=FAIL\n");
          if Buffer.length out > 1_000_000 then flush_out ()
        end else begin
          let toks = List.filter (fun s -> s <> "") (String.split_on_char ' ' (String.trim line)) in
